@@ -421,6 +421,7 @@ structure AsyncObs where
   started : List Nat               -- every process that was started, lane by lane
   errors  : List CmdErr            -- `MultiError.errors`; the step succeeds iff this is empty
   cmdOut  : Option (List Slot)     -- `context['cmdOut']` (set iff some command has `save`)
+  running : List Nat := []         -- processes started and not yet finished when the step returns
   deriving Repr, DecidableEq, Inhabited
 
 /-- The processes of a lane that existed: the ones dealt with that could be started, and the running one. -/
@@ -436,7 +437,8 @@ def runAsync (cs : List ACommand) (sched : List Nat) : AsyncObs :=
   { trace := startEvents (lanesOf cs) ++ r.2 ++ drainAllEvents r.1,
     started := (fin.map laneStarted).flatten,
     errors := c.2,
-    cmdOut := if cs.any (·.save) then some c.1 else none }
+    cmdOut := if cs.any (·.save) then some c.1 else none,
+    running := (fin.filterMap (·.cur)).map (·.id) }
 
 /-- The schedule-free specification of the final state of a lane. -/
 def finalLane (ps : List Proc) : Lane :=
